@@ -472,6 +472,7 @@ func (e *udpEngine) sendGroup(s *udpTXSender, jobs []*udpJob, pc *net.UDPConn) {
 			j.sendDirect()
 			continue
 		}
+		verifTraceUDP(verifUDPSendBatch, j, j.state, j.state, nil)
 		s.iovs[k] = unix.Iovec{Base: &j.tx[0], Len: uint64(j.txLen)} //nolint:gosec // G115 — txLen is a staged reply length, bounded by the TX buffer
 		s.jobs[k] = j
 		h := &s.hdrs[k]
